@@ -949,30 +949,24 @@ theorem subSizeT_le (buflen k : Nat) (h : k ≤ buflen) : subSizeT buflen k ≤ 
   simp only [subSizeT]
   omega
 
-/-- the precise condition on `buflen` under which the output loop over the remaining `names` (the last of
-which is empty) stays inside `buf` -/
-def MxFits (buflen : Nat) (names : List (List Nat)) (out : List Nat) : Prop :=
-  (names.length = 1 → out.length + 1 ≤ buflen) ∧
-  (2 ≤ names.length → out.length + 255 * (names.length - 2) + 2 ≤ buflen)
-
+/-- the output loop over the remaining `names` (the last of which is empty) stays inside `buf` as soon as
+`offset < buflen` — which the guard `offset + 2 >= buflen → break` maintains -/
 theorem mxOut_good (buflen : Nat) :
-    ∀ names out, (∀ e ∈ names, (cstr e).length ≤ 254) → names ≠ [] →
-      (∀ e, names.getLast? = some e → cstr e = []) →
-      Good (MxFits buflen names out) (mxOut buflen names out) := by
+    ∀ names out, names ≠ [] → (∀ e, names.getLast? = some e → cstr e = []) →
+      Good (out.length < buflen) (mxOut buflen names out) := by
   intro names
   induction names with
-  | nil => intro out _ h; exact absurd rfl h
+  | nil => intro out h; exact absurd rfl h
   | cons nm rest ih =>
-    intro out hlen _ hlast
+    intro out _ hlast
     simp only [mxOut]
-    have hfin : Good (MxFits buflen (nm :: rest) out)
+    have hfin : Good (out.length < buflen)
         (push buflen out 0 >>= fun out' => (Except.ok (out.length, out') : Except Fault (Nat × List Nat))) := by
       by_cases hc : out.length < buflen
       · rw [push_ok 0 hc]; exact good_ok _
-      · simp only [push, hc, if_false]
-        refine good_oobWrite ?_
-        simp only [MxFits, List.length_cons]
-        omega
+      · have hp : push buflen out 0 = .error .oobWrite := by simp only [push, hc, if_false]
+        rw [hp, bind_error]
+        exact good_oobWrite hc
     by_cases hs : cstr nm = []
     · simp only [hs, if_true]; exact hfin
     · simp only [hs, if_false]
@@ -980,39 +974,34 @@ theorem mxOut_good (buflen : Nat) :
         intro h
         subst h
         exact hs (hlast nm rfl)
-      have hrl : 1 ≤ rest.length := List.length_pos_iff.mpr hrest
       have hlast' : ∀ e, rest.getLast? = some e → cstr e = [] := by
         intro e he
         apply hlast e
         cases rest with
         | nil => exact absurd rfl hrest
         | cons r rs => rw [List.getLast?_cons_cons]; exact he
-      have hsl : (cstr nm).length ≤ 254 := hlen nm List.mem_cons_self
-      by_cases hl0 : min (cstr nm).length (subSizeT buflen (out.length + 2)) = 0
-      · simp only [if_pos hl0]; exact hfin
-      · simp only [if_neg hl0]
-        have hsub := subSizeT_le buflen (out.length + 2)
-        generalize hL : min (cstr nm).length (subSizeT buflen (out.length + 2)) = l at *
-        by_cases hov : out.length + l > buflen
-        · simp only [hov, if_true]
-          refine good_oobWrite ?_
-          simp only [MxFits, List.length_cons]
-          omega
-        · simp only [hov, if_false]
+      by_cases hg : out.length + 2 ≥ buflen
+      · simp only [if_pos hg]; exact hfin
+      · simp only [if_neg hg]
+        by_cases hl0 : min (cstr nm).length (subSizeT buflen (out.length + 2)) = 0
+        · simp only [if_pos hl0]; exact hfin
+        · simp only [if_neg hl0]
+          have hsub := subSizeT_le buflen (out.length + 2) (by omega)
+          generalize hL : min (cstr nm).length (subSizeT buflen (out.length + 2)) = l at *
+          have hov : ¬ out.length + l > buflen := by omega
+          simp only [if_neg hov]
           have htl : ((cstr nm).take l).length = l := by
             rw [List.length_take]; omega
-          by_cases hc : (out ++ (cstr nm).take l).length < buflen
-          · rw [push_ok 0 hc, bind_ok]
-            refine (ih _ (fun e he => hlen e (List.mem_cons_of_mem _ he)) hrest hlast').mono ?_
-            simp only [MxFits, List.length_append, List.length_cons, List.length_nil, htl]
-            omega
-          · simp only [push, hc, if_false, bind_error]
-            refine good_oobWrite ?_
-            simp only [MxFits, List.length_append, htl, List.length_cons] at hc ⊢
-            omega
+          have hc : (out ++ (cstr nm).take l).length < buflen := by
+            simp only [List.length_append, htl]; omega
+          rw [push_ok 0 hc, bind_ok]
+          refine (ih _ hrest hlast').mono ?_
+          intro _
+          simp only [List.length_append, List.length_cons, List.length_nil, htl]
+          omega
 
 theorem answerMx_good (b : RxBuf) (hcap : b.plen ≤ b.cap) (buflen : Nat) (q : Decoded) (data ancount : Nat) :
-    Good (63242 ≤ buflen) (answerMx b buflen q data ancount) := by
+    Good (0 < buflen) (answerMx b buflen q data ancount) := by
   simp only [answerMx]
   obtain ⟨r, hr, hinv⟩ := mxLoop_ok b hcap ancount data namesInit 0 namesInv_init
   simp only [hr, bind_ok]
@@ -1020,7 +1009,7 @@ theorem answerMx_good (b : RxBuf) (hcap : b.plen ≤ b.cap) (buflen : Nat) (q : 
   | none => exact good_ok _
   | some r =>
     obtain ⟨nm, t⟩ := r
-    obtain ⟨h1, h2, h3⟩ := hinv nm t rfl
+    obtain ⟨h1, _, h3⟩ := hinv nm t rfl
     simp only
     have hne : nm ≠ [] := by intro h; rw [h] at h1; cases h1
     have hlast : ∀ e, nm.getLast? = some e → cstr e = [] := by
@@ -1028,9 +1017,9 @@ theorem answerMx_good (b : RxBuf) (hcap : b.plen ≤ b.cap) (buflen : Nat) (q : 
       rw [List.getLast?_eq_getElem?, h1, h3] at he
       cases he
       rfl
-    have hg := mxOut_good buflen nm [] h2 hne hlast
+    have hg := mxOut_good buflen nm [] hne hlast
     refine good_bind_good (hg.mono ?_) ?_
-    · simp only [MxFits, h1, List.length_nil]; omega
+    · simp only [List.length_nil]; exact id
     · intro a; exact isOk_ok _
 
 theorem readHeader_ok (b : RxBuf) (hcap : b.plen ≤ b.cap) (h : 12 ≤ b.plen) : IsOk (readHeader b) := by
@@ -1047,7 +1036,7 @@ theorem dnsGetId_ok (b : RxBuf) (hcap : b.plen ≤ b.cap) : IsOk (dnsGetId b) :=
     exact isOk_ok _
 
 theorem dnsDecodeAnswer_good (b : RxBuf) (hcap : b.plen ≤ b.cap) (buflen : Nat) :
-    Good (63242 ≤ buflen) (dnsDecodeAnswer buflen b) := by
+    Good (0 < buflen) (dnsDecodeAnswer buflen b) := by
   simp only [dnsDecodeAnswer]
   by_cases h : b.plen < 12
   · simp only [if_pos h]; exact good_ok _
@@ -1079,7 +1068,7 @@ theorem dnsDecodeAnswer_good (b : RxBuf) (hcap : b.plen ≤ b.cap) (buflen : Nat
             · simp only [if_neg h5]
               by_cases h6 : t = 1 ∨ t = 5
               · simp only [if_pos h6]
-                exact (answerCname_good b hcap buflen _ _).mono (by omega)
+                exact answerCname_good b hcap buflen _ _
               · simp only [if_neg h6]
                 by_cases h7 : t = 15 ∨ t = 33
                 · simp only [if_pos h7]; exact answerMx_good b hcap buflen _ _ _
